@@ -241,6 +241,10 @@ CHECKS["C15"] = dict(
    note=TB + "That the model's `stuck` result is unreachable (fcache_get_chunk entry-array bound, loop fuel) is not proved (it would show as a trace "
         "difference). Findings recorded: reopen-open-context, realloc-caches-lent, clone-dict-new-attrs.",
    technique="Lean 4 proof (ledger balance of transcribed functions) + trace correspondence + reference-sum/leak monitors", design="§6 C15")
+# round 2: C08 entry as rewritten with the image-generator extension (Arm, independent optional inputs, histories)
+CHECKS["C08"].update(
+   text='Partial: proved for the generic layout machinery and the page-table scanners, observed for the per-architecture set-up decisions. Lean proofs over models of sys.c (sys_set_layout, act_direct/act_rdirect/act_ident_*, sys_set_physmaps) and of the recursive scanners of step.c over the proved C02 walk model: direct_def, rdirect_direct_id (the reverse direct map round-trips for any prior state), physmaps_ident, layout_total, fast_linear_*; on the x86-64 4- and 5-level forms with arbitrary tables lowest_mapped / lowest_unmapped / highest_mapped return exactly the least/greatest mapped/unmapped address and never run out of fuel; highest_linear is sound. Tie and property evaluation: synthesized kernel images (x86_64 Linux 4/5-level, KASLR text and direct-map offsets, negative phys_base, version present/absent, 4K/2M/1G direct map, each symbol present/absent, SME; Xen 3.x-4.x incl. BIGMEM; ia32 PAE and non-PAE; riscv64 Sv39/48/57; aarch64 4K/16K/64K; 32-bit Arm short descriptors with sections/supersections/large/small pages; every optional input of the set-up code present/absent independently; histories: the same addrxlat_sys_t set up several times, judged after the last set-up) through the real addrxlat_sys_os_init, then every sampled address through the fast paths, the hardware map and an independent walk, and physical addresses through the reverse direct map and back.',
+   note='Trusted: Lean 4.33 kernel (axioms propext, Classical.choice, Quot.sound only; no native_decide/bv_decide/sorry), tools/extract.py, the C harness + gcc/ASan/UBSan, the generators. addrxlat_sys_os_init and the per-architecture decision logic are covered by the image stream only (x86_64_fastpath_eq_walk is not proved); s390x and ppc64 set-up, a real Linux-under-Xen image (p2m/m2p) and kdumpfile/vtop.c are not exercised; the Arm, input-combination and history extensions are implementation-only (generators + Python oracle). Findings recorded: ia32-rdirect-without-vmalloc-start, xen-text-region-stub-pages.')
 NOT_YET = {}
 
 def main():
